@@ -271,6 +271,17 @@ theorem match_eq_spec_full_fails : ¬ match_eq_spec_full := fun h => by
     (by decide)
   cases hσ
 
+/-- Why the class excludes a LITERAL identifier followed by an ellipsis: `(k ...)` with `k` a
+literal does not match `(k)` and raises a syntax error (`UnexpectedPattern`) at USE time on
+`(k k)` — where the declarative matcher (and R7RS) match. -/
+theorem literal_before_ellipsis_out_of_class :
+    Supported ["k"] (plist [.ident "k", .ellipsis]) = false ∧
+    matchDatum 20 ["k"] (plist [.ident "k", .ellipsis]) (lst [sy "k", sy "k"]) [] =
+      .error (.syntax, none) ∧
+    matchDatum 20 ["k"] (plist [.ident "k", .ellipsis]) (lst [sy "k"]) [] = .ok (false, []) ∧
+    specMatch ["k"] (plist [.ident "k", .ellipsis]) (lst [sy "k", sy "k"]) = some [] :=
+  ⟨rfl, rfl, rfl, rfl⟩
+
 /-- Documented limit (not a refutation of the class statement): an ellipsis stands for ONE OR
 MORE items, so `(m)` does not match `(m a ...)` — R7RS says it does, with `a` bound to nothing. -/
 theorem zero_item_ellipsis_no_match {fuel} (hf : 6 ≤ fuel) :
